@@ -202,7 +202,80 @@ def write_if_changed(path, text):
     return True
 
 
-GENERATORS = {'Consts': gen_consts}
+TABLES = [
+    # (lean name, module, class, attribute)
+    ('allowedUpload', 'manager', 'TransferManager', 'ALLOWED_UPLOAD_ARGS'),
+    ('allowedDownload', 'manager', 'TransferManager', 'ALLOWED_DOWNLOAD_ARGS'),
+    ('allowedCopy', 'manager', 'TransferManager', 'ALLOWED_COPY_ARGS'),
+    ('allowedDelete', 'manager', 'TransferManager', 'ALLOWED_DELETE_ARGS'),
+    ('fullObjectChecksumArgs', 'constants', None, 'FULL_OBJECT_CHECKSUM_ARGS'),
+    ('putObjectBlocklist', 'upload', 'UploadSubmissionTask', 'PUT_OBJECT_BLOCKLIST'),
+    ('createMultipartBlocklist', 'upload', 'UploadSubmissionTask', 'CREATE_MULTIPART_BLOCKLIST'),
+    ('uploadPartArgs', 'upload', 'UploadSubmissionTask', 'UPLOAD_PART_ARGS'),
+    ('completeMultipartArgs', 'upload', 'UploadSubmissionTask', 'COMPLETE_MULTIPART_ARGS'),
+    ('copyUploadPartCopyArgs', 'copies', 'CopySubmissionTask', 'UPLOAD_PART_COPY_ARGS'),
+    ('copyCreateMultipartBlacklist', 'copies', 'CopySubmissionTask', 'CREATE_MULTIPART_ARGS_BLACKLIST'),
+    ('copyCompleteMultipartArgs', 'copies', 'CopySubmissionTask', 'COMPLETE_MULTIPART_ARGS'),
+    ('legacyAllowedUpload', '__init__', 'S3Transfer', 'ALLOWED_UPLOAD_ARGS'),
+    ('legacyAllowedDownload', '__init__', 'S3Transfer', 'ALLOWED_DOWNLOAD_ARGS'),
+    ('legacyUploadPartArgs', '__init__', 'MultipartUploader', 'UPLOAD_PART_ARGS'),
+    ('processpoolAllowedDownload', 'constants', None, 'ALLOWED_DOWNLOAD_ARGS'),
+]
+
+S3_OPERATIONS = ['HeadObject', 'GetObject', 'PutObject', 'CreateMultipartUpload', 'UploadPart',
+                 'UploadPartCopy', 'CompleteMultipartUpload', 'AbortMultipartUpload', 'CopyObject',
+                 'DeleteObject']
+
+
+def gen_argtables():
+    out = [HEADER, 'namespace S3V.Gen\n']
+    for lean, mod, cls, attr in TABLES:
+        v = const(mod, cls, attr)
+        if not isinstance(v, list):
+            raise ExtractError('%s.%s.%s is not a list' % (mod, cls, attr))
+        out.append('/-- %s.%s.%s -/\ndef %s : List String := %s\n'
+                   % (mod, cls or '', attr, lean, lean_strlist(v)))
+    mp = const('copies', 'CopySubmissionTask', 'EXTRA_ARGS_TO_HEAD_ARGS_MAPPING')
+    if not isinstance(mp, dict):
+        raise ExtractError('EXTRA_ARGS_TO_HEAD_ARGS_MAPPING is not a dict literal')
+    pairs = ', '.join('(%s, %s)' % (lean_str(k), lean_str(v)) for k, v in mp.items())
+    out.append('/-- copies.CopySubmissionTask.EXTRA_ARGS_TO_HEAD_ARGS_MAPPING -/\n'
+               'def copyHeadMapping : List (String × String) := [%s]\n' % pairs)
+    out.append('end S3V.Gen\n')
+    return ''.join(out)
+
+
+def s3_shapes():
+    """input-shape member names of the S3 operations used, from the installed botocore model"""
+    import botocore
+    import gzip
+    base = os.path.join(os.path.dirname(botocore.__file__), 'data', 's3', '2006-03-01')
+    path = os.path.join(base, 'service-2.json')
+    if os.path.exists(path):
+        with open(path) as f:
+            model = json.load(f)
+    elif os.path.exists(path + '.gz'):
+        with gzip.open(path + '.gz', 'rt') as f:
+            model = json.load(f)
+    else:
+        raise ExtractError('botocore S3 service model not found under %s' % base)
+    shapes = {}
+    for op in S3_OPERATIONS:
+        inp = model['operations'][op]['input']['shape']
+        shapes[op] = sorted(model['shapes'][inp]['members'].keys())
+    return shapes, botocore.__version__
+
+
+def gen_s3shapes():
+    shapes, version = s3_shapes()
+    out = [HEADER, '-- botocore %s, data/s3/2006-03-01/service-2.json\n' % version, 'namespace S3V.Gen\n']
+    for op in S3_OPERATIONS:
+        out.append('def shape%s : List String := %s\n' % (op, lean_strlist(shapes[op])))
+    out.append('end S3V.Gen\n')
+    return ''.join(out)
+
+
+GENERATORS = {'Consts': gen_consts, 'ArgTables': gen_argtables, 'S3Shapes': gen_s3shapes}
 
 
 def extract_all():
